@@ -19,7 +19,7 @@ PROPERTY = 'C06'
 LEVEL = 'model_checking'
 
 ENCS = ['latin_1', 'cp500', 'cp037', 'ascii']
-SHAPES = ['minimal', 'typed', 'pds_small', 'pds_multi', 'icc_binary', 'de43', 'near_max', 'pan']
+SHAPES = ['minimal', 'typed', 'pds_small', 'pds_multi', 'icc_binary', 'de43', 'near_max', 'pan', 'blanks']
 
 
 def shape_message(shape, i=0):
@@ -45,6 +45,11 @@ def shape_message(shape, i=0):
         m = {'MTI': '1240', 'DE2': '5' * 19, 'DE54': 'A' * 999, 'DE63': 'B' * 999, 'DE72': 'C' * 999, 'DE111': 'D' * 999,
              'DE127': 'E' * 999, 'DE55': iso_ref.icc_build(isogen.icc_of_length(900, 3))}
         return 'PKG', m
+    if shape == 'blanks':
+        # long runs of blanks and of '@': byte 0x40 under EBCDIC resp. ASCII, i.e. content that looks like 1014 fill
+        return 'PKG', {'MTI': '1240', 'DE3': '      ', 'DE72': ((' ' * 40 + 'x') * 25)[:990 + i % 9],
+                       'DE54': (('@' * 30 + 'y') * 30)[:800 + (i * 7) % 100], 'DE127': ' ' * (100 + i % 50),
+                       'PDS0158': ' ' * 12}
     if shape == 'pan':
         return 'CUSTOM', {'MTI': '1240', 'DE2': '5444331234561111', 'DE32': '123456789012', 'DE7': 1234,
                           'DE49': '036'}
@@ -471,9 +476,9 @@ def run(tier, seed):
 
 def describe(tier, seed):
     return {
-        'rule': 'Round trip: every sequence of length 1..3 over 8 message shapes (minimal, typed, small PDS, '
+        'rule': 'Round trip: every sequence of length 1..3 over 9 message shapes (minimal, typed, small PDS, '
                 'multi-carrier PDS, binary ICC with all 256 byte values, DE43, 5.9 kB near-maximum record, PAN-masked '
-                'custom configuration)%s plus cyclic files of 40 and 300 records, x {latin_1, cp500, cp037, ascii} x '
+                'custom configuration, long runs of blanks and @ = byte 0x40 in EBCDIC / ASCII)%s plus cyclic files of 40 and 300 records, x {latin_1, cp500, cp037, ascii} x '
                 '{VBS, 1014} x {packaged, custom}; each message read back must carry every written key with an equal '
                 'value and only documented extras; files written and read one after another under ONE custom '
                 'configuration object edited in place between files. Isolation (a): all 2520 merges of 2 operations each of 2 writers '
